@@ -5,6 +5,7 @@ use serde_json::Value;
 use std::path::Path;
 use std::time::Instant;
 
+pub mod c09;
 pub mod c10;
 pub mod c11;
 pub mod c12;
@@ -14,6 +15,7 @@ type RunFn = fn(&Env, &Known, Instant, u64, Vec<Violation>) -> i32;
 type ReplayFn = fn(&Value) -> Outcome;
 
 const TABLE: &[(&str, RunFn, ReplayFn)] = &[
+    ("C09", c09::run, c09::replay),
     ("C10", c10::run, c10::replay),
     ("C11", c11::run, c11::replay),
     ("C12", c12::run, c12::replay),
